@@ -763,7 +763,10 @@ pub fn run(opts: Opts) -> i32 {
             match tier {
                 Tier::Quick => {
                     bfs(&report, &core, "core-d3", 3, mf, mo, 1, &sizes_quick);
-                    bfs(&report, &full, "full-d2", 2, mf, mo, 1, &sizes_quick);
+                    // depth-2 states are rendered for the smallest and the largest capacity setting
+                    // (a status line that overflows needs two frames: a task and its failed status)
+                    let render_depth = if (mf, mo) == (caps_frames[0], caps_out[0]) || (mf, mo) == (caps_frames[caps_frames.len() - 1], caps_out[caps_out.len() - 1]) { 2 } else { 1 };
+                    bfs(&report, &full, "full-d2", 2, mf, mo, render_depth, &sizes_quick);
                 }
                 Tier::Thorough => {
                     bfs(&report, &full, "full-d3", 3, mf, mo, 2, &sizes_thorough);
